@@ -63,3 +63,81 @@ class ScopesDriver:
     def close(self):
         if self.w is not None:
             self.w.close()
+
+
+def gen_trace(rnd, ntasks=4, nops=28, max_depth=6):
+    """a random program of up to `ntasks` interleaved tasks, each nesting scopes / updates up to depth 6, recorded from
+    the real library; the generator mirrors only what it needs to avoid operations that would block (leaving an async
+    scope whose spawned members are still alive)"""
+    d = ScopesDriver(("A", "B"))
+    d.reset(dict(pc=[0] * 4))  # the trace module has 4 task slots; `ntasks` only bounds how many are started
+    tr = [dict(ev="Init", init={})]
+    frames = {1: []}  # task -> list of (kind, sid)
+    base_tg = {1: 0}
+    grp = {}
+    alive = {1}
+    born = 1
+    nsid = 0
+    pairs = [("A", 1), ("A", 2), ("B", 1), ("B", 2)]
+
+    def tg_of(t):
+        for kind, sid in reversed(frames[t]):
+            if kind == "ascope":
+                return sid
+        return base_tg[t]
+
+    try:
+        for _ in range(nops):
+            t = rnd.choice(sorted(alive))
+            ch = []
+            if len(frames[t]) < max_depth:
+                ch += ["enter"] * 4
+            if frames[t]:
+                kind, sid = frames[t][-1]
+                if kind != "ascope" or not any(grp.get(u) == sid for u in alive):
+                    ch += ["leave"] * 3
+            open_scopes = {sid for fs in frames.values() for kind, sid in fs}
+            can_spawn = tg_of(t) == 0 or tg_of(t) in open_scopes
+            if born < ntasks:
+                ch += ["start"] * 2
+            if not frames[t] and t != 1:
+                ch += ["end"]
+            if not ch:
+                continue
+            c = rnd.choice(ch)
+            if c == "enter":
+                kind = rnd.choice(["ascope", "sscope", "update"])
+                sup = [list(rnd.choice(pairs)) for _ in range(rnd.choice([0, 1, 1, 2, 3]))]
+                k = rnd.randint(0, len(sup)) if kind == "ascope" else len(sup)
+                args = [t, kind, sup[:k], sup[k:]]
+                if kind != "update":
+                    nsid += 1
+                frames[t].append((kind, nsid if kind != "update" else 0))
+                name = "Enter"
+            elif c == "leave":
+                frames[t].pop()
+                name, args = "Leave", [t]
+            elif c == "start":
+                born += 1
+                how = rnd.choice(["spawn", "plain"]) if can_spawn else "plain"
+                base_tg[born] = tg_of(t)
+                grp[born] = tg_of(t) if how == "spawn" else 0
+                frames[born] = []
+                alive.add(born)
+                name, args = "Start", [t, born, how]
+            else:
+                alive.discard(t)
+                name, args = "End", [t]
+            o = d.apply(name, tuple(tuple(tuple(p) for p in a) if isinstance(a, list) else a for a in args))
+            if isinstance(o, dict):  # loop errors reported by the driver: keep them visible
+                o = o["obs"]
+            tr.append(dict(ev=name, args=args, obs=[dict(x, p={k: list(v) for k, v in x["p"].items()}) for x in o]))
+    finally:
+        d.close()
+    return tr
+
+
+TRACE_KW = dict(
+    variables=["st", "on", "ms", "tg", "frames", "base", "pc", "grp", "nsid", "nops", "actor", "obs"],
+    constants=dict(NTasks=4, Types='{"A", "B"}', Vals="{1, 2}", MaxDepth=6, MaxOps=100000, SupKind='"tiny"', Bug='"none"'),
+    config_vars=[], actions=dict(Enter=4, Leave=1, Start=3, End=1), invariants=["LexicalLookup", "ScopeIdsFresh"])
